@@ -16,6 +16,7 @@ def _work(arg):
     nt = getattr(mod, ntname) if ntname else None
     fails = []
     keys = set()
+    total = 0
     for c in cases:
         try:
             fs = fn(c)
@@ -23,12 +24,24 @@ def _work(arg):
             import traceback
             fs = [('checker-exception', '%s: %s' % (type(e).__name__,
                                                     traceback.format_exc()[-600:]))]
-        if nt is None or nt(c):
-            keys.add(zlib.crc32(repr(c).encode()) ^ (hash(repr(c)) & 0xffffffff00000000))
+        if isinstance(fs, dict):
+            # the check function measured its own sub-cases
+            total += fs['n']
+            keys |= set(_k(k) for k in fs['keys'])
+            fs = fs['fails']
+        else:
+            total += 1
+            if nt is None or nt(c):
+                keys.add(_k(c))
         for f in fs:
             if len(fails) < _MAX_FAILS_PER_CHUNK:
                 fails.append((c,) + tuple(f))
-    return len(cases), keys, fails
+    return total, keys, fails
+
+
+def _k(c):
+    r = repr(c).encode()
+    return (zlib.crc32(r) << 32) | zlib.adler32(r)
 
 
 def replay_script(modname, fname, case, kind):
@@ -37,6 +50,7 @@ def replay_script(modname, fname, case, kind):
             "from %s import %s\n"
             "case = %s\n"
             "fails = %s(case)\n"
+            "fails = fails['fails'] if isinstance(fails, dict) else fails\n"
             "hits = [f for f in fails if f[0] == %r]\n"
             "for f in fails: print('FAIL', f)\n"
             "print('reproduced' if hits else 'not reproduced')\n"
@@ -64,6 +78,8 @@ def run_cases(ctx, name, modname, fname, cases, rule, nontrivial=None,
         for f in fails:
             case, kind, what = f[0], f[1], f[2]
             attrs = dict(f[3]) if len(f) > 3 and f[3] else {}
+            if len(f) > 4 and f[4] is not None:
+                case = f[4]
             nfail += 1
             if kind == 'checker-exception':
                 raise RuntimeError('check function %s.%s crashed on %r: %s'
